@@ -1,4 +1,4 @@
-(* PacketTie.v — the HashPacket methods of src/internal.rs (gen/SrcPacket.v), as bodies run by [run_fn] under ANY
+(* PacketTie.v — the HashPacket methods and unordered_load3 of src/internal.rs (gen/SrcPacket.v), as bodies run by [run_fn] under ANY
    call environment: they call nothing, so what they mean does not depend on the function table of the hasher that
    embeds the packet.  Every backend's source-level tie (the portable one has its own copy in SourceTie.v, stated for
    its table) gets its "buffer.<method>" lemmas from these. *)
@@ -100,3 +100,52 @@ Proof.
     reflexivity.
 Qed.
 End P.
+
+(* ---- internal::unordered_load3(from) (a free function of internal.rs, translated with HashPacket's methods): for the slices the
+        backends pass it — at most three bytes, each below 256 — the translated code, with its u64 additions checked as the build
+        profile checks them, is the model Packet.unordered_load3 (no addition can overflow) *)
+Lemma shl_byte b k : b < 256 -> k <= 16 -> N.land (N.shiftl b k) 18446744073709551615 = N.shiftl b k.
+Proof.
+  intros Hb Hk. change 18446744073709551615 with (N.ones 64). rewrite N.land_ones. apply N.mod_small.
+  rewrite N.shiftl_mul_pow2. assert (2 ^ k <= 2 ^ 16) by (apply N.pow_le_mono_r; lia).
+  change (2 ^ 16) with 65536 in H. change (2 ^ 64) with 18446744073709551616. nia.
+Qed.
+Lemma shl_byte_lt b k : b < 256 -> k <= 16 -> N.shiftl b k < 16777216.
+Proof.
+  intros Hb Hk. rewrite N.shiftl_mul_pow2. assert (2 ^ k <= 2 ^ 16) by (apply N.pow_le_mono_r; lia).
+  change (2 ^ 16) with 65536 in H. nia.
+Qed.
+Lemma add_chk_small p x y : x + y <= M64 -> add_chk p U64 x y = Ok (x + y).
+Proof.
+  intros H. unfold add_chk. cbn [mask]. replace (M64 <? x + y) with false by (symmetry; apply N.ltb_ge; exact H).
+  rewrite andb_false_r. change M64 with (N.ones 64). rewrite N.land_ones, N.mod_small; [reflexivity|].
+  unfold M64 in H. change (2 ^ 64) with 18446744073709551616. lia.
+Qed.
+
+
+Section U.
+Variable p : profile.
+Variable CALL : string -> env -> list val -> callres.
+Notation run := (run_fn p CALL).
+Ltac ul3 := cbv -[add_chk N.shiftl N.land N.add N.lt N.le].
+
+Ltac two_adds x y z :=
+  let H1 := fresh in let H2 := fresh in
+  pose proof (shl_byte_lt y 8 ltac:(assumption) ltac:(lia)) as H1; pose proof (shl_byte_lt z 16 ltac:(assumption) ltac:(lia)) as H2;
+  rewrite (add_chk_small p x (N.shiftl y 8)) by (unfold M64; lia); ul3;
+  rewrite (add_chk_small p (x + N.shiftl y 8) (N.shiftl z 16)) by (unfold M64; lia); ul3; reflexivity.
+
+Lemma run_unordered_load3 g from : (List.length from <= 3)%nat -> wbytesb from = true ->
+  run pkt_unordered_load3 g [VA from] = lift (unordered_load3 p from) (fun r => (g, [Some (VA from)], Some (VN r))).
+Proof.
+  intros HL HB. destruct from as [|a [|b [|c [|d l]]]]; [| | | |cbn [List.length] in HL; lia]; clear HL;
+    cbn [wbytesb forallb] in HB; rewrite ?andb_true_iff in HB.
+  - ul3. reflexivity.
+  - destruct HB as (Ha & _). apply N.ltb_lt in Ha.
+    ul3. rewrite !(shl_byte a) by lia. two_adds a a a.
+  - destruct HB as (Ha & Hb & _). apply N.ltb_lt in Ha. apply N.ltb_lt in Hb.
+    ul3. rewrite !(shl_byte b) by lia. two_adds a b b.
+  - destruct HB as (Ha & Hb & Hc & _). apply N.ltb_lt in Ha. apply N.ltb_lt in Hb. apply N.ltb_lt in Hc.
+    ul3. rewrite !(shl_byte b), !(shl_byte c) by lia. two_adds a b c.
+Qed.
+End U.
